@@ -61,7 +61,7 @@ func Run(c Case) (res core.Result) {
 	res = core.Result{Labels: append([]string{fmt.Sprintf("connections=%d", c.NConn)}, c.Classes...)}
 	for _, cl := range c.Classes {
 		switch cl {
-		case "reparse-before-execute", "rebind-portal", "close-then-use", "same-name-on-two-connections", "describe-after-reparse", "params-per-portal":
+		case "large-message-between", "reparse-before-execute", "rebind-portal", "close-then-use", "same-name-on-two-connections", "describe-after-reparse", "params-per-portal":
 			res.NonTrivial = true
 		}
 	}
